@@ -61,3 +61,14 @@ contract(D + 'deep_merge', props=['C06', 'C08', 'C16', 'C17'], pure=True,
              'forall(lambda k: has(dct, k) == (has(entry(dct), k) or ((k in _done) and has(merge_dct, k))))',
              'forall(lambda k: implies((k in _done), merged_at(dct, entry(dct), merge_dct, k)))',
              'forall(lambda k: implies(not (k in _done) and has(entry(dct), k), child(dct, k) == child(entry(dct), k)))']}})
+
+contract('vivarium.core.registry:update_merge', props=['C08'], pure=True,
+         types={'current_value': 'Tree', 'new_value': 'Tree', 'update': 'Tree', 'k': 'Atom', 'new': 'Tree', 'v': 'Tree',
+                'ret': 'Tree'},
+         requires=['is_node(current_value)', 'is_node(new_value)'],
+         ensures=['merged(ret, current_value, new_value)'],       # unmentioned keys kept, new keys added, dicts merged deeply
+         loops={0: {'invariant': [
+             'is_node(update)',
+             'forall(lambda k: has(update, k) == (has(current_value, k) or ((k in _done) and has(new_value, k))))',
+             'forall(lambda k: implies(k in _done, merged_at(update, current_value, new_value, k)))',
+             'forall(lambda k: implies(not (k in _done) and has(current_value, k), child(update, k) == child(current_value, k)))']}})
